@@ -12,13 +12,23 @@ const SALT: u64 = 0xC18_BA5E;
 const TYPES: [Ty; 4] = [Ty::Claims, Ty::Kdf, Ty::Party, Ty::SuppPub];
 
 fn claim_value(ctx: &mut Ctx) -> Item {
-    match ctx.rng.below(8) {
+    match ctx.rng.below(9) {
         0 => Item::Text(gen::pal_text(&mut ctx.rng)),
         1 => Item::Int(gen::pal_int(&mut ctx.rng)),
         2 => Item::Float(gen::pal_float(&mut ctx.rng)),
         3 => Item::Bytes(gen::small_bytes(&mut ctx.rng)),
         4 => gen::kind_palette(ctx.rng.below(gen::KIND_PALETTE_LEN)),
         5 => Item::Int(ctx.rng.range(-3, 3) as i128 + *ctx.rng.pick(&[0i128, i64::MAX as i128, i64::MIN as i128])),
+        6 => {
+            // date/time and other tags around an otherwise valid value: a tagged item is not the value
+            let inner = match ctx.rng.below(4) {
+                0 => Item::Int(1700000000),
+                1 => Item::Float(1.5),
+                2 => Item::Text("x".into()),
+                _ => Item::Bytes(vec![1]),
+            };
+            Item::Tag(*ctx.rng.pick(&[0u64, 1, 24, 55799, 61]), Box::new(inner))
+        }
         _ => gen::random_item(&mut ctx.rng, 2),
     }
 }
